@@ -18,13 +18,15 @@ LONG = {}
 def max_len(a, tier):
     if tier == "quick":
         return 4 if a <= 6 else 3 if a <= 12 else 2
+    if tier == "mid":
+        return 5 if a <= 5 else 4 if a <= 8 else 3 if a <= 14 else 2
     return 6 if a <= 4 else 5 if a <= 7 else 4 if a <= 12 else 3 if a <= 20 else 2
 
 
 def sequences(ri, rn, ctx):
     s = ri.spec[rn]
     alpha = list(dict.fromkeys(lang.names(s))) + [FOREIGN]
-    L = max_len(len(alpha), ctx.tier)
+    L = max_len(len(alpha), "mid" if getattr(ctx, "escalated", False) else ctx.tier)
     seen = set()
     for n in range(0, L + 1):
         for w in itertools.product(alpha, repeat=n):
@@ -32,7 +34,7 @@ def sequences(ri, rn, ctx):
             yield list(w)
     # W-method conformance suite over the minimal DFA of the rule's strict language (k extra states: 0 quick, 1 thorough)
     D, A = automaton.minimal_dfa(s, alpha, rn in ri.mixed)
-    suite, nstates, nw = automaton.w_suite(D, A, alpha, 0 if ctx.tier == "quick" else 1)
+    suite, nstates, nw = automaton.w_suite(D, A, alpha, 0 if (ctx.tier == "quick" or getattr(ctx, "escalated", False)) else 1)
     WSTATS[rn] = (nstates, len(suite))
     for w in sorted(suite):
         if w not in seen and len(w) <= 80:
@@ -42,7 +44,7 @@ def sequences(ri, rn, ctx):
                 raise AssertionError(f"harness: minimal DFA and declarative language disagree on {rn} {w}")
             yield list(w)
     # longer: sampled words of the language and single mutations
-    k = 12 if ctx.tier == "quick" else 80
+    k = 12 if ctx.tier == "quick" else 30 if getattr(ctx, "escalated", False) else 80
     rng = ctx.rng
     for _ in range(k):
         w = lang.sample_word(s, rng, rep=rng.choice([1, 2, 4]))
@@ -212,7 +214,7 @@ def run_synth(ctx, ri):
     """random specs of the class wfTop installed under a reused rule name (the theorems quantify over the class, not the table)"""
     rng, quick = ctx.rng, ctx.tier == "quick"
     fails, diffs, reqs, metas = [], [], [], []
-    nspec = 60 if quick else 700
+    nspec = 60 if quick else 200 if getattr(ctx, "escalated", False) else 700
     for i in range(nspec):
         sj = synth.gen_spec(rng)
         s = lang.parse(sj)
@@ -220,7 +222,7 @@ def run_synth(ctx, ri):
         rname = rng.choice(sorted(ri.mixed)) if mixed else synth.SYNTH
         fri = _RI(rname, s, mixed)
         with synth.installed(sj, rname):
-            for w in synth.sequences(s, rng, quick):
+            for w in synth.sequences(s, rng, quick or getattr(ctx, "escalated", False)):
                 r = synth.validate_both(rname, w)
                 case = {"synthetic_spec": sj, "mixed": mixed, "kids": w}
                 what = judge(fri, rname, w, r)
